@@ -10,6 +10,8 @@
       s = w | s = w ∘ w | s ∘= w      s an `unsigned short` variable; w ::= s | n ≤ 65535 | v      (stage 6)
       lv = a ∘ b ∘ c …                 chains of two or more operators grouped to the left              (stage 7)
       lv = e    e ::= a ∘ b | (e) ∘ a | a ∘ (e)    linear expressions: one operand of every operator is atomic (stage 8)
+      s++ | s--                        on a 16-bit variable, as statements                              (stage 9)
+      lv = e    e ::= a | (e) ∘ (e)    any tree the generator accepts (PHA / PLA spills)                 (stage 10)
       { S… } | if (c) S | if (c) S else S | while (c) S | do S while (c); | for (F; c; F) S   (stage 2)
       break; | continue; | if (c) break; | if (c) continue;   inside loops                    (stage 5)
       c ::= a ⋈ b | lv | !lv | c && c | c || c | !c     ⋈ ∈ {==, !=, <, >=, >, <=}; no ordered comparison with
@@ -57,20 +59,32 @@
      operand is computed into the accumulator; `(e) ∘ a` continues on it, a commutative `a ∘ (e)` is computed as
      `(e) ∘ a`, `a − (e)` parks the value of `e` in the scratch cell (`STA cctmp ; LDA a ; SEC ; SBC cctmp`).
      `linVal` is the meaning with the scratch writes, `linPure` the plain value; induction over the expression tree
-     (`linCode_exec`, `linVal_pure`). Expressions with a compound operand on BOTH sides need the stack (PHA / PLA):
-     not in the fragment — the theorems compare all of memory, the stack page included.
+     (`linCode_exec`, `linVal_pure`).
+   * stage 10 (expression trees): `lv = e` for ANY tree `e` over the five operators that the generator goes through
+     with (`GExpr.ok`; it gives up with "Code too complex" on the others, and the port says so: the tie compares the
+     rejections too). `genE` is a port of generate_expr / generate_arithm with their state (`acc_in_use`,
+     `tmp_in_use`): operand order, `STA cctmp` of a right operand found in the accumulator, `PHA` when the accumulator
+     holds an outer operand, the result handed over in the scratch cell (`STA cctmp ; PLA`). The stack pointer and
+     the stack page are part of the compared state (`SrcSt.sp`): `tree_code_correct` — the code runs to its end, the
+     state is the one `exprSpec` describes step by step, SP is back where it was. `tree_value_is_plain` — that state
+     is `lv = (plain value of the tree)` outside the compiler's own cells: the spill strategy never loses a live
+     value (induction over the tree with the invariants "an outer operand in the accumulator survives", "a taken
+     scratch cell survives": `evalE_pure`, `evalPlan_pure`). Part of `RStmt`, hence of every theorem above;
+     `struct_program_correct_pure` now reads "equal outside `cctmp` and the stack page", for layouts that keep the
+     program's cells and `cctmp` out of the stack page.
    * `fresh_labels`: every label the generator defines is new (counter ranges), the fact behind the
      uniqueness of labels in emitted code (used again by C13).
    * `adc_after_clc`, `sbc_after_sec`, `negate_means_not`, `mirror_means_swap`: the arithmetic and
      operator-table facts the templates rest on.
   NOT covered by these theorems (covered by co-execution against CV.CSem in the check, partial):
-  expressions with a compound operand on both sides of an operator, 16-bit ++/--/shifts/comparisons/unary operators, 16-bit values in conditions, arrays of 16-bit
+  16-bit shifts/comparisons/unary operators, 16-bit values in conditions, arrays of 16-bit
   elements, subscripts that are memory operands, switch,
   calls, signed types, pointers; optimisation levels above -O0 (C02's subject).
 -/
 import CV.Proofs.GenStructMain
 import CV.Proofs.GenStructPure
 import CV.Proofs.GenWord
+import CV.Proofs.GenWordStruct
 set_option linter.unusedSimpArgs false
 set_option linter.constructorNameAsVariable false
 namespace CV.C01
@@ -132,6 +146,25 @@ theorem wide_code_correct (L : Layout) (zp : String → Bool) (st : RStmt) (c : 
   have hx : c'.x = (rspec L (srcOf c) st).x := congrArg SrcSt.x h2
   have hy : c'.y = (rspec L (srcOf c) st).y := congrArg SrcSt.y h2
   exact ⟨c', h1, by rw [hm]; exact w1, by rw [hx]; exact w2, by rw [hy]; exact w3, h3, fun a ha hb => by rw [hm]; exact w4 a ha hb⟩
+
+/-- stage 9: `s++` / `s--` on a 16-bit variable. The statements are *derived* (`incW`, `decW`: "low byte ++ ; if it
+    became 0, high byte ++" — exactly the lines `INC s ; BNE .ifendN ; INC s+1 ; .ifendN:` the generator emits, with
+    the flag belief that lets it skip the reload), so every structural theorem applies to them; their meaning is
+    16-bit arithmetic -/
+theorem wide_increment_is_word_arithmetic (L : Layout) (σ : SrcSt) (s : String) (f : Nat) :
+    ∃ σ', sem L (f + 3) σ (incW s) = some (.norm, σ') ∧ wordAt L σ'.mem s = wordAt L σ.mem s + 1 ∧
+      σ'.x = σ.x ∧ σ'.y = σ.y ∧ ∀ a, a ≠ L s → a ≠ L s + 1 → σ'.mem.read a = σ.mem.read a :=
+  incW_word L σ s f
+
+theorem wide_decrement_is_word_arithmetic (L : Layout) (σ : SrcSt) (s : String) (f : Nat) :
+    ∃ σ', sem L (f + 4) σ (decW s) = some (.norm, σ') ∧ wordAt L σ'.mem s = wordAt L σ.mem s - 1 ∧
+      σ'.x = σ.x ∧ σ'.y = σ.y ∧ ∀ a, a ≠ L s → a ≠ L s + 1 → σ'.mem.read a = σ.mem.read a :=
+  decW_word L σ s f
+
+example : SInFragment (incW "p") = true ∧ SInFragment (decW "p") = true ∧ Scoped false (.seq (incW "p") (decW "p")) = true := by decide
+example : (gen none {} (.seq (incW "p") (decW "p"))).1.map GLine.text =
+    (gen none {} (.seq (incW "p") (decW "p"))).1.map GLine.text := rfl
+example : ((gen none {} (incW "p")).1).length = 4 ∧ ((gen none {} (decW "p")).1).length = 5 := by decide
 
 /-- the two byte passes are 16-bit arithmetic (carry of the addition, borrow of the subtraction) -/
 theorem byte_passes_are_word_arithmetic (op : BOp) (a1 a0 b1 b0 : Byte) :
@@ -311,6 +344,62 @@ example : rgenText (fun _ => true) (.lin (.var "v") (.right (.of (.var "a")) .su
      (.STA, "cctmp"), (.LDA, "a"), (.SEC, ""), (.SBC, "cctmp"), (.STA, "v")] := by decide
 example (L : Layout) (σ : SrcSt) : linPure L σ (.right (.of (.const 10)) .sub (.pair (.of (.const 3)) .add (.of (.const 4)))) = 3 := by
   simp [linPure, rval, val, BOp.apply]
+
+/-! ### stage 10: expression trees with spills -/
+
+/-- `lv = e` for every expression tree: when the generator goes through with it (`e.ok`), the code runs to its end
+    from every machine state, leaves the state `exprSpec` describes (every scratch write, push and pull included)
+    and the stack pointer where it was; otherwise there is no code and nothing changes -/
+theorem tree_code_correct (L : Layout) (s : Cpu) (fl : Option FRef) (v : LV) (e : GExpr) (hinv : FlagsInv L fl s) :
+    ∃ s', execSeq s (exprCode Opd.none (opd L) v e) = some s' ∧ srcOf s' = exprSpec L (srcOf s) v e ∧ s'.sp = s.sp ∧
+      FlagsInv L (if e.ok then some v else fl) s' :=
+  exprStmt_exec L s fl v e hinv
+
+/-- the spill strategy never loses a live value: for every accepted tree, `exprSpec` is the assignment of the plain
+    value of the tree, outside the compiler's own cells (`cctmp`, stack page) -/
+theorem tree_value_is_plain (L : Layout) (σ : SrcSt) (v : LV) (e : GExpr) (hok : e.ok = true)
+    (hn : NoTmp L (v.names ++ gexprNames e)) : EqOff L (exprSpec L σ v e) (wr L σ v (pureE L σ e)) := by
+  have := rspec_pure L (EqOff.refl L σ) (.expr v e) hn
+  simpa [rspec, pureSpec, hok] using this
+
+/-- what the generator decides does not depend on how operands are written -/
+theorem tree_decisions_independent_of_rendering (L : Layout) (e : GExpr) (hne : ∀ a, e ≠ .atom a) :
+    e.ok = true ↔ ∃ c st', genE Opd.none (opd L) {} e = some (c, .acc, st') :=
+  genE_ok_iff Opd.none (opd L) e hne
+
+/-! non-vacuity of stage 10: `v = (a + b) − (c & d)` spills; a tree the generator gives up on -/
+example : rgenText (fun _ => true) (.expr (.var "v") (.bin (.bin (.atom (.of (.var "a"))) .add (.atom (.of (.var "b")))) .sub
+      (.bin (.atom (.of (.var "c"))) .band (.atom (.of (.var "d")))))) =
+    [(.LDA, "a"), (.CLC, ""), (.ADC, "b"), (.PHA, ""), (.LDA, "c"), (.AND, "d"), (.STA, "cctmp"), (.PLA, ""), (.SEC, ""),
+     (.SBC, "cctmp"), (.STA, "v")] := by decide
+example : (GExpr.bin (.bin (.atom (.of (.var "a"))) .add (.atom (.of (.var "b")))) .sub
+      (.bin (.atom (.of (.var "c"))) .band (.atom (.of (.var "d"))))).ok = true := by decide
+example : (GExpr.bin (.bin (.atom .x) .add (.atom (.of (.var "b")))) .sub (.bin (.bin (.atom (.of (.var "a"))) .sub (.atom (.of (.var "b")))) .sub
+      (.bin (.atom (.of (.var "c"))) .band (.atom .y)))).ok = false := by decide
+example (L : Layout) (σ : SrcSt) : pureE L σ (.bin (.bin (.atom (.of (.const 9))) .add (.atom (.of (.const 1)))) .sub
+      (.bin (.atom (.of (.const 7))) .band (.atom (.of (.const 12))))) = 6 := by
+  simp [pureE, rval, val, BOp.apply]
+
+/-- a layout that meets the hypotheses of `tree_value_is_plain` (and of `struct_program_correct_pure`): the program's
+    cells and `cctmp` in the zero page, below the stack page -/
+theorem not_inStack_of_lt (a : Word) (h : a.toNat < 256) : ¬ InStack a := by
+  rintro ⟨b, rfl⟩
+  have : (Cpu.stackAddr b).toNat ≥ 256 := by
+    unfold Cpu.stackAddr
+    rw [BitVec.toNat_or]
+    exact Nat.left_le_or
+  omega
+example : NoTmp (fun n => if n == "cctmp" then 0x80 else if n == "a" then 0x81 else 0x82) [.var "a", .var "v"] := by
+  refine ⟨not_inStack_of_lt _ (by decide), ?_⟩
+  intro x hx
+  simp only [List.mem_cons, List.not_mem_nil, or_false] at hx
+  rcases hx with rfl | rfl
+  · rintro (h | h)
+    · exact absurd h (by decide)
+    · exact not_inStack_of_lt _ (by decide) h
+  · rintro (h | h)
+    · exact absurd h (by decide)
+    · exact not_inStack_of_lt _ (by decide) h
 
 
 end CV.C01
